@@ -81,8 +81,27 @@ def _harness(ctx, tag, scripts, builtin):
     return run_harness(ctx, PKG, "TestVerifServe", "serve-%s.ndjson" % tag, env=env, timeout=900)
 
 
+def _replay_file(ctx, sig, text, script):
+    """replays/<prop>-<hash>.json: the gated script (TLC behaviour) that showed the alarm; re-executed by
+    `check.py <prop> --replay <file>`"""
+    import hashlib
+    key = json.dumps(sig, sort_keys=True)
+    path = os.path.join(core.ROOT, "replays", "%s-%s.json" % (ctx.prop, hashlib.sha1(key.encode()).hexdigest()[:10]))
+    os.makedirs(os.path.dirname(path), exist_ok=True)
+    with open(path, "w") as fh:
+        json.dump({"property": ctx.prop, "seed": ctx.seed, "tier": ctx.tier, "signature": sig, "what": text,
+                   "stage": "syncserve", "script": script}, fh, indent=1)
+    return path
+
+
 def run(ctx, monitors):
     q = ctx.quick
+    rp = getattr(ctx, "replay", None)
+    if rp:
+        doc = json.load(open(rp))
+        if doc.get("stage") != "syncserve" or not doc.get("script"):
+            raise core.Inconclusive("replay file %s carries no SyncServe script" % rp)
+        return _judge(ctx, monitors, [doc["script"]], [(1, [doc["script"]], None)])
     c11 = bool(monitors & MON_C11)
     c12 = bool(monitors & MON_C12_CALLBACKS)
     # ------------------------------------------------------------------ 1. design level
@@ -128,15 +147,20 @@ def run(ctx, monitors):
     ctx.notes.append("TLC behaviours replayed on the real SyncChain/callbackStore: %d (%d of them violate a monitor on the design model)"
                      % (len(scripts), ncex))
     # ------------------------------------------------------------------ 3. real code
-    bin_for(ctx, PKG)            # build once, before the shards start
     jobs = []
     k = max(1, min(SHARDS, len(scripts) // 50 + 1))
     for i in range(k):
         jobs.append((i + 1, scripts[i::k], None))
     builtin = ",".join((["soak"] if c11 else []) + (["stall", "scanstall"] if c12 else []))
     jobs.append((0, None, builtin))
+    return _judge(ctx, monitors, scripts, jobs)
+
+
+def _judge(ctx, monitors, scripts, jobs):
+    bin_for(ctx, PKG)            # build once, before the shards start
     with ThreadPoolExecutor(max_workers=len(jobs)) as ex:
         traces = list(ex.map(lambda j: _harness(ctx, *j), jobs))
+    byname = {s["name"]: s for s in scripts}
     # ------------------------------------------------------------------ 4. trace validation
     def val(tp):
         return ctx.validate_trace("Trace_SyncServe", "Trace_SyncServe.cfg", tp,
@@ -144,6 +168,7 @@ def run(ctx, monitors):
     with ThreadPoolExecutor(max_workers=len(traces)) as ex:
         results = list(ex.map(val, traces))
     allok = True
+    replays = {}
     drift = []
     seen = {}
     for tp, (ok, alarms, res) in zip(traces, results):
@@ -156,9 +181,15 @@ def run(ctx, monitors):
             if a["mon"] in monitors:
                 key = (a["mon"], a["shape"])
                 seen[key] = seen.get(key, 0) + 1
-                ctx.alarm({"stage": "syncserve", "mon": a["mon"], "shape": a["shape"]},
-                          "SyncChain/callbackStore: monitor %s failed (%s, %s) in scenario %s at line %s of %s"
-                          % (a["mon"], a["shape"], a["detail"], a["scenario"], a["line"], os.path.basename(tp)))
+                sig = {"stage": "syncserve", "mon": a["mon"], "shape": a["shape"]}
+                text = ("SyncChain/callbackStore: monitor %s failed (%s, %s) in scenario %s at line %s of %s"
+                        % (a["mon"], a["shape"], a["detail"], a["scenario"], a["line"], os.path.basename(tp)))
+                known = any(k.get("property") == ctx.prop and k.get("status") == "known" and core.sig_matches(k["signature"], sig)
+                            for k in core.load_known())
+                rfile = None
+                if not known and key not in replays and a["scenario"] in byname:
+                    replays[key] = rfile = _replay_file(ctx, sig, text, byname[a["scenario"]])
+                ctx.alarm(sig, text, replay=rfile or replays.get(key))
             elif a["mon"] == "Conformance":
                 drift.append(a)
     ctx.sample({"stage": "syncserve", "trace_head": sample_lines(traces[-1], 4, 300)})
